@@ -11,7 +11,7 @@ from sim.seams import Env
 PROPERTY = "C15"
 LEVEL = "exploration"
 SCENARIOS = {"tasks-plain": 2, "tasks-parallel": 2, "processes": 3}
-TIERS = {"quick": {"runs": 1400, "chunk": 10}, "thorough": {"runs": 140000, "chunk": 50}}
+TIERS = {"quick": {"runs": 4000, "chunk": 10}, "thorough": {"runs": 140000, "chunk": 50}}
 RULE = ("one run = 2-3 mailbox users of one simulated terminal, each doing 1-5 SDO exchanges "
         "(expedited reads/writes of its own object, so every message is attributable), "
         "answers delayed 0..4 polls so that exchanges overlap in time; 'tasks-plain': tasks "
